@@ -210,7 +210,11 @@ var absErr = new(big.Rat).SetFrac(big.NewInt(1), new(big.Int).Lsh(big.NewInt(1),
 // fround models rounding of the exact real result r of a float64 operation:
 // the result x satisfies |x - r| <= 2^-53*|r| + 2^-200 (round to nearest, the
 // absolute term covers the subnormal range).
-func (i *interpreter) fround(r *Term) value {
+func (i *interpreter) fround(r *Term) value { return i.froundX(r, false) }
+
+// froundX: exactSmall is set for add/sub, whose results are exact in the
+// subnormal range (no absolute error term).
+func (i *interpreter) froundX(r *Term, exactSmall bool) value {
 	if r.IsConst() {
 		f, _ := r.R.Float64()
 		if math.IsInf(f, 0) {
@@ -224,7 +228,10 @@ func (i *interpreter) fround(r *Term) value {
 		return symFloat{x}
 	}
 	ar := Abs(r)
-	bound := Add(Mul(RatC(eps53), ar), RatC(absErr))
+	bound := Mul(RatC(eps53), ar)
+	if !exactSmall {
+		bound = Add(bound, RatC(absErr))
+	}
 	var lo, hi *big.Rat
 	if r.Lo != nil && r.Hi != nil {
 		bh := bound.Hi
@@ -240,7 +247,22 @@ func (i *interpreter) fround(r *Term) value {
 		}
 	}
 	x := i.path.freshVarB("f", SReal, widenLo(lo), widenHi(hi))
-	i.path.solver.Assert(And(Le(Sub(r, bound), x), Le(x, Add(r, bound))))
+	// rounding is monotone: it never changes the sign
+	zero := RatC(rat0)
+	var sign *Term
+	switch {
+	case r.Lo != nil && r.Lo.Sign() > 0:
+		sign = mk(SBool, "<=", zero, x)
+	case r.Hi != nil && r.Hi.Sign() < 0:
+		sign = mk(SBool, "<=", x, zero)
+	case r.Lo != nil && r.Lo.Sign() == 0:
+		sign = And(mk(SBool, "<=", zero, x), Implies(Le(r, zero), mk(SBool, "<=", x, zero))) // zero stays zero
+	case r.Hi != nil && r.Hi.Sign() == 0:
+		sign = And(mk(SBool, "<=", x, zero), Implies(Ge(r, zero), mk(SBool, "<=", zero, x)))
+	default:
+		sign = And(Implies(Ge(r, zero), mk(SBool, "<=", zero, x)), Implies(Le(r, zero), mk(SBool, "<=", x, zero)))
+	}
+	i.path.solver.Assert(And(Le(Sub(r, bound), x), Le(x, Add(r, bound)), sign))
 	if h := absHi(r); h == nil || h.Cmp(big1000) >= 0 {
 		i.path.addObligation(Lt(ar, RatC(big1000)), "float overflow")
 	}
@@ -322,9 +344,9 @@ func (i *interpreter) symBinop(op token.Token, t types.Type, x, y value) value {
 		}
 		switch op {
 		case token.ADD:
-			return i.fround(Add(xf, yf))
+			return i.froundX(Add(xf, yf), true)
 		case token.SUB:
-			return i.fround(Sub(xf, yf))
+			return i.froundX(Sub(xf, yf), true)
 		case token.MUL:
 			if !xf.IsConst() && !yf.IsConst() {
 				yf = RatC(i.path.concretizeReal(yf, "float multiplication"))
